@@ -213,7 +213,7 @@ def failures_generated(lay, mode):
     """{(clause, cls): message} for one generated file and one parse path ('X' = frontend raised)."""
     try:
         sf = parse(lay.text, mode)
-    except Exception as e:  # pylint: disable=broad-except
+    except (Exception, LG.CpuBudget) as e:  # pylint: disable=broad-except
         return {('X', type(e).__name__): f'{mode} parse raises {type(e).__name__}: {e}'[:300]}, 0, 0
     recs = collect(sf)
     viol, paired = judge(lay.text, recs, lay, lazy=mode.startswith('lazy'), fragments=fragments(lay.text, mode))
@@ -230,7 +230,7 @@ def fragments(text, mode):
         with LG.cpu_guard(CPU_BUDGET):
             sf = Sourcefile.from_source(text, frontend=Frontend.REGEX, parser_classes=R.ProgramUnitClass)
         return tuple(n.source.lines[0] for n in sf.ir.body if getattr(n, 'source', None) is not None)
-    except Exception:  # pylint: disable=broad-except
+    except (Exception, LG.CpuBudget):  # pylint: disable=broad-except
         return ()
 
 
@@ -310,7 +310,7 @@ def work_generated(item):
 def _counts(lay, mode):
     try:
         recs = collect(parse(lay.text, mode))
-    except Exception:  # pylint: disable=broad-except
+    except (Exception, LG.CpuBudget):  # pylint: disable=broad-except
         return 0, 0
     return len(recs), judge(lay.text, recs, lay, lazy=mode.startswith('lazy'), fragments=fragments(lay.text, mode))[1]
 
@@ -327,7 +327,7 @@ def failures_repo(path, mode):
         else:
             with LG.cpu_guard(20 * CPU_BUDGET):
                 sf = Sourcefile.from_file(path, frontend=Frontend.REGEX)
-    except Exception as e:  # pylint: disable=broad-except
+    except (Exception, LG.CpuBudget) as e:  # pylint: disable=broad-except
         return None, 0, f'{type(e).__name__}'
     recs = collect(sf)
     viol, _ = judge(text, recs, None, lazy=False)
